@@ -169,8 +169,8 @@ def run(ck):
     for fld, fns in writers.items():
         for fn in fns:
             nw += 1
-            if short(fn) not in allowed[fld] and '::clone' not in fn:
-                ck.finding('C15.WHO', fn, f"writes:{fld}", f"{short(fn)} writes Encapsulator.{fld}; it is not one of the reviewed writers")
+            if short(fn) not in allowed[fld] and '::clone' not in fn and f.body(fn).public:
+                ck.finding('C15.WHO', fn, f"writes:{fld}", f"public function {short(fn)} writes Encapsulator.{fld}; it is not one of the reviewed entry points of the re-use policy")
     ck.rule('C15.WHO writers of the re-use policy fields', nw, 12)
     ck.assumptions += ['the step from the per-call obligations (invariant J: max != 0 and last_label != None imply consecutive <= cur <= max) to "never more than N consecutive re-use packets" is a paper induction over call histories',
                        'encap / encap_ext reach the policy state only through check_label_re_use and the save/restore of C09.R3 (WHO rule)']
